@@ -139,7 +139,15 @@ def _num_alternatives(r):
     out = []
     for c in cands:
         rc = E.reify(c)
-        if rc != tuple(r) and rc[0] != "other" and c == x and rc not in out:
+        if rc == tuple(r) or rc[0] == "other" or not (c == x) or rc in out:
+            continue
+        # the reified form must denote exactly this value again (a Decimal with more digits than the context
+        # precision does not survive unreify: Decimal(1e300))
+        try:
+            back = G.unreify(rc)
+        except Exception:  # noqa
+            continue
+        if type(back) is type(c) and back == c and E.reify(back) == rc:
             out.append(rc)
     return out
 
@@ -187,3 +195,30 @@ def lookalikes(r, limit=64):
 def lookalike(rnd, r):
     c = lookalikes(r, 24)
     return rnd.choice(c) if c else None
+
+
+def has_nonfinite(a):
+    """Does the argument (reified value or special form) contain a NaN / infinity?"""
+    if is_special(a):
+        if a[0] in ("x:iter", "x:failiter", "x:keyseq"):
+            return any(has_nonfinite(x) for x in a[1])
+        return False
+    t = a[0]
+    if t == "other":
+        return a[1] in ("float", "Decimal")
+    if t in ("list", "tuple", "deque"):
+        return any(has_nonfinite(x) for x in a[1])
+    if t == "set":
+        return any(has_nonfinite(x) for x in a[2])
+    if t == "dict":
+        return any(has_nonfinite(k) or has_nonfinite(v) for k, v in a[1])
+    if t == "struct":
+        return any(has_nonfinite(v) for _, v in a[2])
+    return False
+
+
+def op_has_nonfinite(op):
+    vals = list(op.get("args", [])) + list((op.get("kwargs") or {}).values())
+    if "value" in op:
+        vals.append(op["value"])
+    return any(has_nonfinite(v) for v in vals)
